@@ -869,10 +869,23 @@ Section UdpErrors.
   Qed.
 End UdpErrors.
 
-(* the same for the whole exchange: every documented exception udp() raises is justified by the
-   configuration and by the datagram at the position reported (or is the deadline) *)
-Theorem udp_error_sound (parse : list Z -> pabs) q qwire where_ timeout af o evs now i e :
-  udp parse q qwire where_ timeout af o [] evs now = (i, Lib e) ->
+Lemma udp_send_lib exp len : forall sevs now e,
+  udp_send exp len sevs now = Lib e -> e = neTimeout /\ exp <> None.
+Proof.
+  induction sevs as [|ev sevs IH]; intros now e H; cbn [udp_send] in H; [discriminate|].
+  destruct ev as [n|dt]; [discriminate|].
+  destruct (wait_for now exp dt) as [now'|e'|e'] eqn:W; cbn [bind] in H.
+  - eapply IH; eauto.
+  - inversion H; subst. split; [eapply wait_for_never_ok_value; eauto|].
+    intros ->. cbn in W. destruct dt; discriminate.
+  - discriminate.
+Qed.
+
+(* the same for the whole exchange, whatever the send side does: every documented exception udp()
+   raises is justified by the configuration and by the datagram at the position reported (or is
+   the deadline) *)
+Theorem udp_error_sound (parse : list Z -> pabs) q qwire where_ timeout af o sevs evs now i e :
+  udp parse q qwire where_ timeout af o sevs evs now = (i, Lib e) ->
   (e = neTimeout /\ timeout <> None) \/
   exists pre wire from rest, evs = pre ++ UData wire from :: rest /\ i = (length pre + 1)%nat /\
     ( raised_as_configured parse af (Some where_) o (Some q) e wire from
@@ -881,9 +894,13 @@ Theorem udp_error_sound (parse : list Z -> pabs) q qwire where_ timeout af o evs
                     /\ ~ genuine q m) ).
 Proof.
   unfold udp. destruct (negb (where_valid where_)); [intros H; inversion H|].
-  cbn [udp_send].
   destruct (compute_times now timeout) as [begin_time expiration] eqn:Ct.
-  destruct (receive_udp parse af (Some where_) expiration o (Some q) evs now 0) as [j [x|e'|e']] eqn:E.
+  assert (Hexp : expiration <> None -> timeout <> None).
+  { intros Hx ->. cbn in Ct. inversion Ct; subst. contradiction. }
+  destruct (udp_send expiration (zlen qwire) sevs now) as [[n now1]|e'|e'] eqn:Us.
+  2:{ intros H. inversion H; subst. apply udp_send_lib in Us. destruct Us as [-> Hx]. left. auto. }
+  2:{ intros H. inversion H. }
+  destruct (receive_udp parse af (Some where_) expiration o (Some q) evs now1 0) as [j [x|e'|e']] eqn:E.
   - destruct x as [[[[r0 w0] t0] f0] rest0].
     destruct (negb (o_ignore_errors o || is_response q r0)) eqn:Ec; [|intros H; inversion H].
     intros H. inversion H; subst. right.
@@ -894,7 +911,7 @@ Proof.
     exists r0. split; auto. intros G. apply is_response_iff in G. congruence.
   - intros H. inversion H; subst.
     apply receive_udp_error_sound in E. destruct E as [[-> Hx]|(pre & w1 & f1 & r1 & -> & -> & Hc)].
-    + left. split; auto. intros ->. cbn in Ct. inversion Ct; subst. contradiction.
+    + left. auto.
     + right. exists pre, w1, f1, r1. split; auto.
   - intros H. inversion H.
 Qed.
